@@ -118,8 +118,12 @@ def random_script(rng, level, n, beyond=False, g=None):
                 if rng.random() < 0.6:
                     st.pending.append((num, st.ts))
                 continue
-            if not beyond and st.hi is not None and num - st.rep > HIST:
-                report()
+            if not beyond and st.hi is not None:
+                if num - st.hi > HIST:                                    # too many losses in a row: stay inside the history
+                    st.pos = num = st.hi + HIST
+                    st.pending = []
+                if num - st.rep > HIST:
+                    report()
             deliver(st, num, st.ts)
             if rng.random() < 0.04:
                 now += rng.choice([0, g])
@@ -161,9 +165,10 @@ def saturation_script(rng, level, jumps):
     for i in range(jumps):
         now += rng.choice([20, 1000, 9000])
         ts += rng.choice([900, 90000, 2000000])
-        pos += HIST
+        extra = rng.random() < 0.05
+        pos += HIST - 1 if extra else HIST
         steps.append(ev("rtp", s=1, w=pos % 65536, ts=ts, t=now))
-        if rng.random() < 0.05:
+        if extra:
             pos += 1
             steps.append(ev("rtp", s=1, w=pos % 65536, ts=ts, t=now))
         if rng.random() < 0.03:
@@ -227,7 +232,13 @@ def run(ctx):
     if not ctx.quick:
         rs.append(saturation_script(rng, "icpt", 2100))
         rs += [random_script(rng, "stream", 20000) for _ in range(4)]
-    run_batch(ctx, rs, "T-random")
+    evs = run_batch(ctx, rs, "T-random")
+    if evs is not None and not ctx.violations:
+        top = max([b["tot"] for e in evs if e["a"] == "report" for b in e["out"]] or [0])
+        if top != 0xFFFFFF:
+            raise vlib.Infra("the saturation history did not reach 2^24-1 (highest cumulative lost seen: %d)" % top)
+        ctx.cov["max_cumulative_lost_observed"] = top
+        ctx.cov["max_cycles_observed"] = max(b["cyc"] for e in evs if e["a"] == "report" for b in e["out"])
     # (T) the classes outside the history: report intervals longer than 8192 numbers, packets older than the history
     nb = 6 if ctx.quick else 60
     bs = [random_script(rng, rng.choice(["stream", "icpt"]), length, beyond=True) for _ in range(nb)]
